@@ -304,6 +304,18 @@ func (c *Chain) DumpStore(name string) map[string]string {
 	return out
 }
 
+// DumpStoreCtx dumps a store as seen by the given context (e.g. a throw-away branch with uncommitted writes).
+func (c *Chain) DumpStoreCtx(ctx sdk.Context, name string) map[string]string {
+	out := map[string]string{}
+	st := ctx.KVStore(c.App.GetKey(name))
+	it := st.Iterator(nil, nil)
+	defer it.Close()
+	for ; it.Valid(); it.Next() {
+		out[string(it.Key())] = string(it.Value())
+	}
+	return out
+}
+
 // Digest hashes a set of stores.
 func (c *Chain) Digest(names ...string) string {
 	h := sha256.New()
